@@ -4,6 +4,7 @@ import (
 	"fmt"
 	"strings"
 	"testing"
+	"time"
 
 	"github.com/elementsproject/peerswap/swap"
 	"pgregory.net/rapid"
@@ -105,6 +106,143 @@ func TestC17NegotiationTimeouts(t *testing.T) {
 					if !peerCancelled && !sentCancelFor(n, id) {
 						h.stop = col.Violation(h.T, "C17/responder-silent-cancel:"+howEntered(n, id),
 							"%s failed swap %s (fee invoice unpaid) without telling the peer (path %s)\n%s", n.Name, id[:6], howEntered(n, id), h.dump())
+						return
+					}
+				}
+			}
+		}
+		col.Case(h.Key(), nt, h.Ops, h.classList()...)
+	})
+}
+
+// TestC17ClockedTimeouts: the same property with a harness-owned clock that honours the durations the
+// node arms. Simulated time advances only through "advance" actions; an armed time-out fires when its own
+// duration has elapsed since it was armed (never earlier), time-outs of a dead process are gone. Deadlines
+// of the property: request sent + 10 min for a requester without agreement, agreement (fee invoice) sent +
+// 10 min for a swap-out responder whose fee invoice is unpaid. At the latest deadline plus one second the
+// states are judged as in TestC17NegotiationTimeouts.
+func TestC17ClockedTimeouts(t *testing.T) {
+	col := stats.Get("C17.clocked")
+	rapid.Check(t, func(t *rapid.T) {
+		h := newHist(t, HistCfg{MaxSteps: 12, Chains: []string{"btc", "lbtc"}, Restarts: true, Drops: true,
+			Weights: map[string]int{"start": 0, "deliver": 5, "restart": 3, "mine": 1, "holdfee": 3, "advance": 5}})
+		defer h.Close()
+		var clock time.Duration
+		armedAt := map[*swap.VerifTimeout]time.Duration{}
+		fired := map[*swap.VerifTimeout]bool{}
+		t0 := map[string]time.Duration{} // node/swap -> when its waiting period began
+		seenSent := 0
+		observe := func() {
+			for _, n := range h.nodes() {
+				if !h.alive(n) {
+					continue
+				}
+				for _, to := range n.Timeouts.Snapshot() {
+					if _, ok := armedAt[to]; !ok {
+						armedAt[to] = clock
+					}
+				}
+			}
+			for _, m := range h.W.Sent[seenSent:] {
+				if m.Failed {
+					continue
+				}
+				k := m.From + "/" + swapIdOfPayload(m.Payload)
+				switch m.Type {
+				case mtSwapInRequest, mtSwapOutRequest, mtSwapOutAgreement:
+					if _, ok := t0[k]; !ok {
+						t0[k] = clock
+					}
+				}
+			}
+			seenSent = len(h.W.Sent)
+		}
+		fireDue := func() {
+			for progress := true; progress; {
+				progress = false
+				for _, n := range h.nodes() {
+					if !h.alive(n) {
+						continue
+					}
+					for i, to := range n.Timeouts.Snapshot() {
+						if at, ok := armedAt[to]; ok && !fired[to] && at+to.Duration <= clock {
+							fired[to] = true
+							if f, _ := n.FireTimeout(i); f {
+								h.class("timeout-fired")
+								h.opf("timeout-due(%s,%s,armed@%v+%v)", n.Name, to.SwapId[:6], at, to.Duration)
+								progress = true
+							}
+							observe()
+						}
+					}
+				}
+			}
+		}
+		h.monitors = []func(*Hist){func(*Hist) { observe() }}
+		acts := h.stdActions()
+		for _, k := range []string{"settle", "progress", "watcher", "paid", "timeout"} {
+			delete(acts, k)
+		}
+		acts["holdfee"] = func() {
+			h.A.PayPlan["fee"] = []sim.PayOutcome{sim.PayFailClean, sim.PayFailClean}
+			h.opf("holdfee")
+		}
+		acts["advance"] = func() {
+			d := rapid.SampledFrom([]time.Duration{time.Second, 30 * time.Second, time.Minute, 4 * time.Minute, 9 * time.Minute, 10 * time.Minute, 11 * time.Minute}).Draw(t, "dt")
+			clock += d
+			h.opf("advance(%v)=%v", d, clock)
+			fireDue()
+		}
+		h.run(acts)
+		observe()
+		// move to one second past the latest deadline of the property
+		last := clock
+		for _, at := range t0 {
+			if at+10*time.Minute+time.Second > last {
+				last = at + 10*time.Minute + time.Second
+			}
+		}
+		clock = last
+		fireDue()
+		nt := h.Classes["timeout-fired"] || h.Classes["restart"]
+		for _, n := range h.nodes() {
+			for _, s := range n.Swaps() {
+				id := s.SwapId.String()
+				role := fmt.Sprintf("%s-%s", s.Type, s.Role)
+				peerCancelled := s.Data != nil && s.Data.Cancel != nil
+				start, waited := t0[n.Name+"/"+id]
+				switch {
+				case s.Role == swap.SWAPROLE_SENDER:
+					gotAgreement := s.Data.SwapInAgreement != nil || s.Data.SwapOutAgreement != nil
+					if gotAgreement || !waited {
+						continue
+					}
+					h.class("requester-without-agreement")
+					if s.Current != swap.State_SwapCanceled {
+						h.stop = col.Violation(h.T, "C17/clocked/requester-not-cancelled:"+role+":"+strings.TrimPrefix(string(s.Current), "State_"),
+							"%s sent the request for swap %s at %v, got no agreement; at %v (more than 10 min later) the swap is in %q\n%s", n.Name, id[:6], start, clock, s.Current, h.dump())
+						return
+					}
+					if !peerCancelled && !sentCancelFor(n, id) {
+						h.stop = col.Violation(h.T, "C17/clocked/requester-silent-cancel:"+role, "%s cancelled swap %s but never told the peer\n%s", n.Name, id[:6], h.dump())
+						return
+					}
+				case s.Type == swap.SWAPTYPE_OUT && s.Role == swap.SWAPROLE_RECEIVER:
+					if s.Data.SwapOutAgreement == nil || !waited {
+						continue
+					}
+					inv := h.W.LN.Invoices[s.Data.SwapOutAgreement.Payreq]
+					if inv == nil || inv.Paid {
+						continue
+					}
+					h.class("responder-fee-unpaid")
+					if s.Current != swap.State_SwapCanceled {
+						h.stop = col.Violation(h.T, "C17/clocked/responder-not-cancelled:"+strings.TrimPrefix(string(s.Current), "State_"),
+							"%s issued the fee invoice for swap %s at %v; it is unpaid and at %v (past its 10 min expiry) the swap is in %q\n%s", n.Name, id[:6], start, clock, s.Current, h.dump())
+						return
+					}
+					if !peerCancelled && !sentCancelFor(n, id) {
+						h.stop = col.Violation(h.T, "C17/clocked/responder-silent-cancel", "%s failed swap %s (fee invoice unpaid) without telling the peer\n%s", n.Name, id[:6], h.dump())
 						return
 					}
 				}
